@@ -11,6 +11,11 @@ NA = {
 }
 
 CHECKS = {
+    'C04': dict(
+        category='other', design_ref='DESIGN.md §5 C04',
+        technique='grammar-automaton analysis (serialized ATN decoded from the compiled program, path enumeration per rule) + agreement of generated Rust constants with it + provenance rules over the visitor',
+        text='Decides: rule nesting and `?:` right associativity, flat `||`/`&&` lists, operator classes of relation/calc with right operand at level n+1 and multiplicative above additive in the ATN and identically in the generated Rust, operand order of every call node the visitor builds, operator text table, label binding in source order, source order of logical chains through the balanced tree, prefix parity and that no visit result is dropped, macros placing receiver/arguments unchanged. The round trip itself is value-level and not decided.',
+        note='ATN format v3 and antlr4rust adaptive prediction trusted; reference table from the property'),
     'C02': dict(
         category='other', design_ref='DESIGN.md §5 C02, §4 analysis B',
         technique='panic-edge audit over MIR: Assert terminators + deny-listed panicking APIs, discharged by dominance/length/constant guard rules or a reviewed position-free ledger; producer rules over aggregates',
